@@ -23,15 +23,18 @@ TREES = {"A": A, "B": B, "C": C}
 TREE_BYTES = {k: ref.tree_bytes(v) for k, v in TREES.items()}
 TREE_OID = {k: ref.tree_oid(v) for k, v in TREES.items()}
 FILES = {n: MD5[n] for n in ("x", "y", "z", "w")}
+# a plain file whose bytes are exactly A's listing: its oid is A's digest without the '.dir' suffix
+FILES["Araw"] = TREE_OID["A"][: -len(".dir")]
 ABSENT = ref.md5(b"absent-object")
 
 
 def universe(tier):
-    objs = ["A", "B", "x", "y", "z", "w"]
-    used = ["A", "B", "x", "w", "absent", "sha256:y", "sha256:A"]
+    objs = ["A", "B", "x", "y", "z", "Araw"]
+    used = ["A", "B", "x", "absent", "sha256:y", "sha256:A", "Araw"]
     if tier == "thorough":
-        objs = ["A", "B", "C", "x", "y", "z", "w"]
-        used = ["A", "B", "C", "x", "w", "absent", "sha256:y", "sha256:A", "absentdir", "md5-dos2unix:absentdir"]
+        objs = ["A", "B", "C", "x", "y", "z", "w", "Araw"]
+        used = ["A", "B", "C", "x", "w", "absent", "sha256:y", "sha256:A", "absentdir", "md5-dos2unix:absentdir",
+                "Araw"]
     return objs, used
 
 
@@ -44,6 +47,8 @@ def oid_of(name):
 def bytes_of(name):
     if name in TREES:
         return TREE_BYTES[name]
+    if name == "Araw":
+        return TREE_BYTES["A"]
     return CONTENTS[name]
 
 
@@ -75,7 +80,7 @@ def cases(tier):
             yield {"kind": kind, "store": list(store), "tier": tier}
 
 
-def run_one(kind, store, used, shallow, dry, cachemode, read_only=False):
+def run_one(kind, store, used, shallow, dry, cachemode, read_only=False, cache_ro=False):
     """One gc call on a freshly built store; returns (violations, outcome)."""
     from dvc_objects.errors import ObjectDBPermissionError
 
@@ -88,7 +93,7 @@ def run_one(kind, store, used, shallow, dry, cachemode, read_only=False):
             put_raw(odb, oid_of(n), bytes_of(n))
         cache_odb = None
         if cachemode == "cache":
-            cache_odb = make_odb("local", w.p("cache"))
+            cache_odb = make_odb("local", w.p("cache"), read_only=cache_ro)
             for n in TREES:
                 put_raw(cache_odb, oid_of(n), bytes_of(n))
         before = objects_only(store_snapshot(odb.path))
@@ -217,16 +222,19 @@ def run_case(case):
                         res["vac"]["removed_something"] += 1
                     for sig, detail in viol:
                         res["viol"].append((sig, detail, sub))
-    # read-only refusal, once per store content
+    # read-only refusal, once per store content (also with a separate, writable cache_odb), and the
+    # converse: a writable store with a read-only cache_odb is collected normally
     for dry in (False, True):
-        sub = {"kind": case["kind"], "store": store, "used": [], "shallow": True,
-               "dry": dry, "cachemode": "self", "ro": True}
-        viol, outcome = run_one(case["kind"], store, [], True, dry, "self", read_only=True)
-        res["n"] += 1
-        res["trans"] += 1
-        res["outcomes"].add(repr(outcome))
-        for sig, detail in viol:
-            res["viol"].append((sig, detail, sub))
+        for cm, ro, cro in (("self", True, False), ("cache", True, False), ("cache", False, True)):
+            used0 = ["A"] if cm == "cache" else []
+            sub = {"kind": case["kind"], "store": store, "used": used0, "shallow": cm != "cache",
+                   "dry": dry, "cachemode": cm, "ro": ro, "cache_ro": cro}
+            viol, outcome = run_one(case["kind"], store, used0, cm != "cache", dry, cm, read_only=ro, cache_ro=cro)
+            res["n"] += 1
+            res["trans"] += 1
+            res["outcomes"].add(repr(outcome))
+            for sig, detail in viol:
+                res["viol"].append((sig + ("/read-only-cache_odb" if cro else ""), detail, sub))
     res["states"] = sorted(res["states"])
     res["outcomes"] = sorted(res["outcomes"])
     res["nontrivial"] = sorted(res["nontrivial"])
@@ -237,7 +245,10 @@ def run_case(case):
 
 def replay(case):
     viol, _ = run_one(case["kind"], case["store"], case["used"], case["shallow"],
-                      case["dry"], case["cachemode"], read_only=case.get("ro", False))
+                      case["dry"], case["cachemode"], read_only=case.get("ro", False),
+                      cache_ro=case.get("cache_ro", False))
+    if case.get("cache_ro"):
+        viol = [(s_ + "/read-only-cache_odb", d) for s_, d in viol]
     return viol
 
 
